@@ -180,6 +180,8 @@ def gen_case(d, shard, tier):
                 if prev:
                     s0 = d.choice(prev)
                     prog, args, tol, tag = s0[1], s0[2], s0[3], s0[4]
+            if k == "abort" and prog in ("zetazero", "siegelz"):
+                prog, args, tol, tag = "zetaint", [d.int(2, 40)], 9, "zetaint"     # tracing makes these too slow
             st = [k, prog, args, tol, tag]
             if k == "abort":
                 st.append(d.int(0, 1000))
